@@ -496,3 +496,29 @@ Proof. unfold segwit_new_p, segwit_front, segwit_decode. cbn [cfg_blech sw_max_s
   rewrite (validate_padding_p_spec r' Vr'). destruct (validate_padding (symsl r')) as [[]|e]; cbn [of_res hbind]; [|reflexivity].
   rewrite validate_wpl_p_spec. destruct (validate_wpl cfg_blech ver' (symsl r')) as [[]|e]; cbn [of_res hbind]; [|reflexivity].
   now rewrite (data_bytes_valid r' Vr'). Qed.
+
+(* ------------------------------------------------------------------------------------------------ integer constructors *)
+Lemma seq_floor_spec s v : seq_from_seconds_floor s = Val v <-> s < 65536 * 512 /\ v = N.lor (s / 512) C10_SEQ_LOCK_TYPE_MASK.
+Proof. unfold seq_from_seconds_floor, seq_from_512. change C10_SEQ_FLOOR_INTERVAL with 512. destruct (N.ltb_spec (s / 512) 65536) as [L|G].
+  - split; [intros [= <-]; split; [lia|reflexivity]|intros [_ ->]; reflexivity].
+  - split; [discriminate|intros [L _]; lia]. Qed.
+Lemma seq_floor_err s : (exists e, seq_from_seconds_floor s = Fail e) <-> 65536 * 512 <= s.
+Proof. unfold seq_from_seconds_floor. change C10_SEQ_FLOOR_INTERVAL with 512. destruct (N.ltb_spec (s / 512) 65536) as [L|G]; split; try (intros [e H]; discriminate); try lia; eauto. Qed.
+(* the ceiling: the least i with 512 i >= s *)
+Lemma u32_div_ceil_spec s : let i := u32_div_ceil s 512 in s <= 512 * i /\ (i = 0 \/ 512 * (i - 1) < s).
+Proof. unfold u32_div_ceil. destruct (N.ltb_spec 0 (s mod 512)); cbv zeta; lia. Qed.
+Lemma seq_ceil_spec s v : seq_from_seconds_ceil s = Val v <-> s <= 65535 * 512 /\ v = N.lor ((s + 511) / 512) C10_SEQ_LOCK_TYPE_MASK.
+Proof. unfold seq_from_seconds_ceil, seq_from_512. change C10_SEQ_CEIL_INTERVAL with 512.
+  assert (E : u32_div_ceil s 512 = (s + 511) / 512) by (unfold u32_div_ceil; destruct (N.ltb_spec 0 (s mod 512)); lia). rewrite E.
+  destruct (N.ltb_spec ((s + 511) / 512) 65536) as [L|G].
+  - split; [intros [= <-]; split; [lia|reflexivity]|intros [_ ->]; reflexivity].
+  - split; [discriminate|intros [L _]; lia]. Qed.
+Lemma seq_ceil_err s : (exists e, seq_from_seconds_ceil s = Fail e) <-> 65535 * 512 < s.
+Proof. unfold seq_from_seconds_ceil. change C10_SEQ_CEIL_INTERVAL with 512.
+  assert (E : u32_div_ceil s 512 = (s + 511) / 512) by (unfold u32_div_ceil; destruct (N.ltb_spec 0 (s mod 512)); lia). rewrite E.
+  destruct (N.ltb_spec ((s + 511) / 512) 65536) as [L|G]; split; try (intros [e H]; discriminate); try lia; eauto. Qed.
+Lemma lt_height_time_spec n : (lt_from_height n = Val n <-> n < 500000000) /\ (lt_from_time n = Val n <-> 500000000 <= n)
+  /\ ((exists e, lt_from_height n = Fail e) <-> 500000000 <= n) /\ ((exists e, lt_from_time n = Fail e) <-> n < 500000000).
+Proof. unfold lt_from_height, lt_from_time, is_block_height. change C10_LOCK_TIME_THRESHOLD with 500000000.
+  destruct (N.ltb_spec n 500000000); repeat split; intros; try lia; try reflexivity; try discriminate; eauto;
+    match goal with H : exists _, _ |- _ => destruct H; discriminate end. Qed.
